@@ -35,7 +35,7 @@ ASSUMPTIONS = ASSUME_COMMON + [
 ]
 TIERS = {
     "quick": {"shards": 16, "cases": 90, "timeout": 600},
-    "thorough": {"shards": 16, "cases": 3000, "timeout": 7200},
+    "thorough": {"shards": 16, "cases": 30000, "timeout": 7200},
 }
 FLOORS = {
     "quick": {"programs": 700, "fields_compared": 30000, "distinct_nontrivial": 300, "kernel_param_checks": 1500},
